@@ -108,10 +108,13 @@ MONADS = {
     "named": ("fm", "fm(p)"),                      # fm::{(x*3)+1}
     "Lnewton": ("{(x+2%x)%2}", "{(x+2%x)%2}(p)"),  # the reference's own Converge example (square root of 2)
     "py": ("pym", "pym(p)"),                       # Python callable, logs its calls
+    "Ldrop": ("{1_x}", "{1_x}(p)"), "Linc2": ("{x+2}", "{x+2}(p)"),
     "pycap": ("pycap", "pycap(p)"),                # Python callable with a fixpoint (converges), logs its calls
 }
 PREDS = {
     "lt10": "{x<10}", "lt0": "{x<0}", "never": "{0}", "short": "{(#x)<4}", "lt30": "{x<30}",
+    # tests whose answers are truth values other than 0 / 1 (Klong truth: 0, [] and "" are false, all else true)
+    "size": "{#x}", "m4": "{x-4}", "rem10": "{10-x}", "realrem": "{(4-x)%1}", "self": "{x}",
 }
 
 ADVERBS = {
@@ -130,6 +133,7 @@ class World:
         self.k = KlongInterpreter()
         self.log = []
         self.apps = []
+        self.pans = []
         self.count = 0
         k = self.k
         k("fd::{x-2*y}")
@@ -163,6 +167,7 @@ class World:
     def reset(self):
         self.log = []
         self.apps = []
+        self.pans = []
         self.count = 0
 
     # one separately evaluated application of the verb
@@ -188,7 +193,9 @@ class World:
         self.tick()
         self.apps.append(["p", canon(x)])
         self.k["p"] = x
-        return self.k(PREDS[pid] + "(p)")
+        r = self.k(PREDS[pid] + "(p)")
+        self.pans.append(canon(r))
+        return r
 
 
 # ------------------------------------------------------------------ the definitional expansions (mirror of Spec.v)
@@ -219,13 +226,15 @@ def pair(i, x):
 
 
 def truth(v):
-    """Klong truth of a predicate result; outside {0,1} the expansion is not prescribed"""
+    """Klong truth of a test's answer (the reference: 0, [] and "" are false, everything else is true)"""
     c = canon(v)
-    if c == ["i", 0]:
-        return False
-    if c == ["i", 1]:
-        return True
-    raise Outside("predicate result is not 0/1")
+    if c[0] == "i":
+        return c[1] != 0
+    if c[0] == "r":
+        return float(v) != 0.0
+    if c[0] in ("l", "s"):
+        return len(c) > 1
+    return True
 
 
 def same(x, y):
@@ -419,13 +428,13 @@ def to_real(c):
     return c
 
 
-def build_text(case):
+def build_text(case, a=None):
     adv = case["adv"]
     atext, ctx = ADVERBS[adv]
     chain = "".join(ADVERBS[x][0] for x in case.get("chain", []))
     verbs = MONADS if VERB_ARITY[adv] == 1 else DYADS
     vt = verbs[case["verb"]][0]
-    a = top(case["a"])
+    a = top(case["a"]) if a is None else a
     if ctx == "m":
         return vt + atext + chain + a
     if adv in ("while", "scanwhile"):
@@ -459,6 +468,23 @@ def run_case(w, case):
     except Exception as e:  # noqa
         out["t"] = ["e", type(e).__name__]
     out["tlog"] = w.log
+    # the same expression with the operand in a variable and as a function argument (a user cannot tell the
+    # expression compiler, which only sees variables, from the interpreter)
+    if not case.get("chain"):
+        for key, prog in (("tv", ["va::" + top(case["a"]), build_text(case, "va")]),
+                          ("tf", ["{" + build_text(case, "x") + "}(" + lit(case["a"]) + ")"])):
+            w.reset()
+            try:
+                r = None
+                for line in prog:
+                    r = k(line)
+                out[key] = canon(r)
+            except Budget:
+                out[key] = ["hang"]
+            except Exception as e:  # noqa
+                out[key] = ["e", type(e).__name__]
+            out[key + "n"] = norm(out[key])
+            out[key + "_text"] = "; ".join(prog)
     # E: expansion
     w.reset()
     try:
@@ -482,6 +508,7 @@ def run_case(w, case):
     except Exception as e:  # noqa
         out["e"] = ["e", type(e).__name__]
     out["eapps"] = w.apps
+    out["pans"] = w.pans
     out["tn"] = norm(out["t"])
     out["en"] = norm(out["e"])
     return out
